@@ -212,6 +212,12 @@ def maxAbscissa : List (α × α) → Option α
   | [] => none
   | p :: t => some (t.foldl (fun m q => if m < q.1 then q.1 else m) p.1)
 
+/-- an optional argument with its default -/
+def optOr (a b : Option α) : Option α :=
+  match a with
+  | some x => some x
+  | none => b
+
 /-- `vectorize(l, start, stop, num_steps).values` for an exact landscape with critical pairs `cps`;
     `interp` is `np.interp` -/
 def vectorize (interp : List (α × α) → α → α) (cps : List (List (α × α))) (start stop : Option α)
@@ -219,10 +225,10 @@ def vectorize (interp : List (α × α) → α → α) (cps : List (List (α × 
   match cps with
   | [] => .error .noDepths
   | d0 :: _ =>
-    match (match start with | some s => some s | none => minAbscissa d0) with
+    match optOr start (minAbscissa d0) with
     | none => .error .emptyDepth
     | some s =>
-      match (match stop with | some e => some e | none => maxAbscissa d0) with
+      match optOr stop (maxAbscissa d0) with
       | none => .error .emptyDepth
       | some e =>
         if cps.any List.isEmpty then .error .emptyDepth
